@@ -1,6 +1,7 @@
 import Oq3.Driver.Types
 import Oq3.Driver.Symbols
 import Oq3.Driver.Lex
+import Oq3.Driver.Parse
 
 open Oq3.Driver
 
@@ -22,6 +23,7 @@ def main (args : List String) : IO UInt32 := do
   | ["types"] => loop stdin stdout typesLine; return 0
   | ["types-guards"] => loop stdin stdout typesGuards; return 0
   | ["symtab"] => loop stdin stdout symtabLine; return 0
+  | ["parse"] => loop stdin stdout parseLine; return 0
   | ["lex", uc] => do
       let tab ← readUClass uc
       loop stdin stdout (lexLine tab); return 0
